@@ -757,6 +757,11 @@ impl<'a> Ex<'a> {
             "call" => (self.t.call, 2),
             _ => (self.t.ret, 1),
         };
+        if kind == "ret" && rsp.wrapping_add(8) == self.ax.verif_stack_top() {
+            // a RET at the top of the stack init_stack set up is the top-level return that ends the run (C11)
+            self.ctx.probe("ret_at_stack_top_skipped");
+            return;
+        }
         let rip = self.code_start + off;
         let _ = self.ax.reg_write_64(SupportedRegister::RIP, rip);
         let _ = self.ax.reg_write_64(SupportedRegister::RSP, rsp);
